@@ -67,9 +67,9 @@ CHECKS["C12"] = dict(
 )
 
 CHECKS["C16"] = dict(
-    parts=[dict(pkg="codec", run="^TestC16_")], level="exploration",
-    quick=dict(shards=4, checks=5000, timeout=600),
-    thorough=dict(shards=16, checks=60000, timeout=2400),
+    parts=[dict(pkg="codec", run="^TestC16_"), dict(pkg="lang", run="^TestC16_")], level="exploration",
+    quick=dict(shards=4, checks=5000, timeout=900),
+    thorough=dict(shards=16, checks=60000, timeout=4000),
     assumptions=[
         "kind changes of a surviving tag and reuse of a removed tag with another meaning are outside the property",
     ],
